@@ -2,5 +2,6 @@
 EXTENDS MC_Auth
 c_NoDevs == {}
 \* deviations of the current tree (DEV_OracleSigIgnored was repaired by 873f403)
-c_CodeDevs == {"DEV_ChallengeNoOwner", "DEV_OperatorBySender", "DEV_OracleSignerInfoCount"}
+\* (DEV_OracleSignerInfoCount was repaired by 4bd9a0c)
+c_CodeDevs == {"DEV_ChallengeNoOwner", "DEV_OperatorBySender"}
 =============================================================================
